@@ -3,7 +3,7 @@
 
 usage: python -m vmon.crashchild '<json>'
   {"cfg": {...}, "policy": "free", "seed": 1, "env": {...},
-   "crash": null | {"commit": n} | {"gate": n} | {"after_write": n}
+   "crash": null | {"commit": n} | {"gate": n} | {"after_write": n} | {"shutdown_gate": n}
             | {"commit_after_events": n} | {"gate_after_events": n}   (watch sessions: counted from the
               moment the file-system events have been applied),
    "watch": null | {"seed": n, "nev": k, "user_files": [...]}}
@@ -72,6 +72,12 @@ def main():
             mon.gates += 1
             if crash.get("gate") == mon.gates:
                 die(f"at gate {mon.gates}")
+            if crash.get("shutdown_gate") == mon.gates and self.build.handler is not None:
+                # not a kill: the user asks the director to stop (the `q` key, `stepup shutdown`);
+                # running steps finish, nothing new is dispatched, the director exits
+                emit({"type": "shutdown_requested", "gate": mon.gates})
+                import asyncio
+                self.shutdown_task = asyncio.create_task(self.build.handler.shutdown())
             if mon.base_gates is not None and crash.get("gate_after_events") == mon.gates - mon.base_gates:
                 die(f"at gate {mon.gates - mon.base_gates} that follows the file-system events")
             await super().gate(info)
